@@ -341,8 +341,24 @@ func runC07(c C07Case, ev *Evid) (fs []Finding) {
 			os.WriteFile(p, make([]byte, int(size)+4096+int(c.XFFBits%977)), 0644) // zero-filled: only the length is unrelated
 			opts = append(opts, wt.WithOpenFileFlag(os.O_RDWR|os.O_CREATE))
 		}
+		afterRefusal := ""
+		if c.XFFBits%5 == 1 {
+			// a Create of the same path that is refused for its arguments (no archives / an unknown method) comes first:
+			// whether a list is accepted depends on the list, not on what was asked for before
+			guard(func() {
+				if c.XFFBits%2 == 0 {
+					_, err = wt.Create(p, nil, wt.AggregationMethod(c.Method), xff)
+				} else {
+					_, err = wt.Create(p, al, wt.AggregationMethod(0), xff)
+				}
+			})
+			if err != nil {
+				afterRefusal = " (after a Create of the same path that was refused: " + err.Error() + ")"
+			}
+			err = nil
+		}
 		if pm := guard(func() { db, err = wt.Create(p, al, wt.AggregationMethod(c.Method), xff, opts...) }); pm != "" || err != nil {
-			add("create-fails", "Create of an accepted layout failed: %v %s", err, pm)
+			add("create-fails", "Create of an accepted layout failed%s: %v %s", afterRefusal, err, pm)
 			return
 		}
 		verdicts["Create"] = true
